@@ -2,7 +2,7 @@
 private name.  Every binder raises Undecided when it finds nothing or too much."""
 import re
 from .engine import Undecided
-from .facts import strip_generics, Place
+from .facts import strip_generics, Place, norm_path
 
 SEM_TY = 'tokio::sync::Semaphore'
 PERMIT_ADT = 'tokio::sync::SemaphorePermit'
@@ -32,7 +32,26 @@ def adt_of(ty):
         ty = ty.split(' ', 1)[1] if ' ' in ty else ty
         if ty.startswith('mut '):
             ty = ty[4:]
-    m = re.match(r'^([A-Za-z_][A-Za-z0-9_:]*)', ty)
+    # items nested in generic functions print as `a::B<M, W>::f::{closure#0}::S<'_>`: take the path up to the
+    # last generic group that is not followed by `::`
+    if ty.startswith('<') or ty.startswith('(') or ty.startswith('['):
+        return None
+    from .facts import norm_path
+    # cut at the end of the leading path: scan balanced groups, continue only while followed by `::`
+    depth = 0; end = len(ty); i = 0
+    while i < len(ty):
+        ch = ty[i]
+        if ch == '<':
+            depth += 1
+        elif ch == '>' and (i == 0 or ty[i - 1] != '-'):
+            depth -= 1
+            if depth == 0 and not ty.startswith('::', i + 1):
+                end = i + 1; break
+        elif depth == 0 and not (ch.isalnum() or ch in '_:{}#'):
+            end = i; break
+        i += 1
+    head = norm_path(ty[:end])
+    m = re.match(r'^([A-Za-z_][A-Za-z0-9_:{}#]*)', head)
     return m.group(1) if m else None
 
 
@@ -105,6 +124,12 @@ class ManagedRoles:
                         i.get('trait') == 'std::ops::Drop' and adt_of(i['self_ty']) == a['path'] for i in c.impls):
                     self.DROPGUARD = a['path']
         self.MANAGER_TRAIT = 'deadpool::managed::Manager'
+        self._users_guard = None
+        # the timeout wrapper: the one local coroutine of the managed module that calls Runtime::timeout
+        tw = [b for b in prog.bodies.values() if (b.path.startswith('deadpool::managed::') or b.path.startswith('<deadpool::managed::')) and b.is_coroutine
+              and any(blk.term.kind == 'call' and 'deadpool_runtime::Runtime::timeout' in blk.term.callee_names() for blk in b.blocks)]
+        self.TIMEOUT_WRAPPER = tw[0] if len(tw) == 1 else None
+        self.TIMEOUT_WRAPPER_FN = strip_generics(tw[0].j.get('parent', '')) if len(tw) == 1 else None
         # entry points (public API names)
         self.GET = self._body('deadpool::managed::Pool::get::{closure#0}')
         self.TIMEOUT_GET = self._body('deadpool::managed::Pool::timeout_get::{closure#0}')
@@ -216,6 +241,60 @@ class ManagedRoles:
                     if lf and lf == (owner, field) and s.place.proj[-1] == '.' + field:
                         out.append((blk.idx, i, s))
         return out
+
+    def users_guard(self):
+        """(adt path, construction block idx, construction stmt) of the guard that undoes `users += 1`:
+        a local ADT with a Drop impl, constructed in timeout_get, whose drop performs fetch_sub on M.USERS -
+        either through a closure it carries (DropGuard(|| ..)) or directly on a field initialised from &users"""
+        if self._users_guard is not None:
+            return self._users_guard
+        from .analysis import sources
+        prog = self.prog
+        root = self.TIMEOUT_GET
+        an = prog.an(root)
+        users = '%s.%s' % (self.INNER, self.USERS)
+        found = []
+        for blk in root.blocks:
+            if blk.cleanup:
+                continue
+            for s in blk.stmts:
+                if not (s.kind == 'assign' and s.rv.kind == 'agg' and s.rv.j.get('ak') == 'adt'):
+                    continue
+                adt = norm_path(strip_generics(s.rv.j['adt']))
+                drops = [b for b in prog.bodies.values() if b.j.get('impl_trait') == 'std::ops::Drop' and adt_of(b.j.get('impl_self', '')) == adt]
+                if len(drops) != 1 or not adt.startswith('deadpool::'):
+                    continue
+                d = drops[0]
+                dan = prog.an(d)
+                ok = False
+                how = None
+                # (a) carries a closure that does the fetch_sub
+                for op in s.rv.ops:
+                    for src in sources(an, op):
+                        if src[0] == 'closure' and src[1] in prog.bodies:
+                            cb = prog.bodies[src[1]]
+                            can = prog.an(cb)
+                            for x in cb.blocks:
+                                if x.term.kind == 'call' and any(n.endswith('::fetch_sub') for n in x.term.callee_names()) and x.term.args and \
+                                        ('field', users) in sources(can, x.term.args[0]):
+                                    ok = True; how = ('closure', cb.path)
+                # (b) the drop body does it on a field initialised from &users
+                if not ok:
+                    for x in d.blocks:
+                        if x.term.kind == 'call' and any(n.endswith('::fetch_sub') for n in x.term.callee_names()) and x.term.args:
+                            fs = [y for y in sources(dan, x.term.args[0]) if y[0] == 'field' and norm_path(strip_generics(y[1])).startswith(adt + '.')]
+                            for f in fs:
+                                fname = f[1].split('.')[-1]
+                                if fname in s.rv.j['fields']:
+                                    op = s.rv.ops[s.rv.j['fields'].index(fname)]
+                                    if ('field', users) in sources(an, op):
+                                        ok = True; how = ('direct', d.path)
+                if ok:
+                    found.append((adt, blk.idx, s, how, d))
+        if len(found) != 1:
+            raise Undecided('users guard: expected exactly one guard construction in timeout_get whose Drop undoes users += 1, found %d' % len(found))
+        self._users_guard = found[0]
+        return self._users_guard
 
     def describe(self):
         return {
